@@ -836,7 +836,7 @@ def judge_trace(ctx, case, obs, wf):
     # ---- property
     if obs["outcome"] == "raise":
         _report(ctx, dict(small, observed=obs["err"]), f"the builder raised on a traced call that the property covers: {obs['err']}",
-                   finding="inline_raw_python_args" if "inline_raw_python_args" in why else None)
+                   finding="inline_raw_python_args" if ("inline_raw_python_args" in why and case["outcome"] == "raise") else None)
         return mism
     mnodes = model_nodes(case["nodes"], case["names"])
     if obs["nodes"] != mnodes:
@@ -847,7 +847,10 @@ def judge_trace(ctx, case, obs, wf):
     if obs.get("wiring"):
         _report(ctx, dict(small, wiring=obs["wiring"]), f"the built graph is not the traced sequence of calls: {obs['wiring'][:3]}")
     if obs["outcome"] == "invalid":
-        fid = "inline_default_attr_dropped" if "inline_default_attr_dropped" in why else ("subgraph_name_reuse" if "subgraph_name_reuse" in why else None)
+        # a deviation explains an unusable model only where the implementation model predicts one
+        fid = None
+        if case["outcome"] in ("invalid", "either"):
+            fid = "inline_default_attr_dropped" if "inline_default_attr_dropped" in why else ("subgraph_name_reuse" if "subgraph_name_reuse" in why else None)
         _report(ctx, dict(small, observed=obs["err"]), f"the built model is not valid: {obs['err']}", finding=fid)
         return mism
     dv, dn = _dups(obs["nodes"], INPUT_NAMES + [i["nm"] for i in obs["inits"]])
@@ -858,16 +861,17 @@ def judge_trace(ctx, case, obs, wf):
     if wf is not None and (ssa_tla is False) != bool(dv):
         mism.append(f"Graph.tla SSA verdict {ssa_tla} disagrees with the Python duplicate scan {list(dv)[:3]}")
     if not uniq:
-        fid = "subgraph_name_reuse" if _cross_graph(dict(dv, **{"node:" + k: v for k, v in dn.items()})) else None
+        fid = "subgraph_name_reuse" if (not case["uniq"] and _cross_graph(dict(dv, **{"node:" + k: v for k, v in dn.items()}))) else None
         _report(ctx, dict(small, duplicate_values=dv, duplicate_nodes=dn),
                    f"names are not unique: values {sorted(dv)[:4]} nodes {sorted(dn)[:4]}", finding=fid)
     if obs["checker"] != "ok":
-        fid = "subgraph_name_reuse" if (not uniq and _cross_graph(dict(dv, **{"node:" + k: v for k, v in dn.items()}))) else None
+        # the strict checker trips over a repeated VALUE name (two types for one name); repeated node names do not bother it
+        fid = "subgraph_name_reuse" if (dv and not case["uniq"] and _cross_graph(dv)) else None
         _report(ctx, dict(small, observed=obs["checker"]), f"onnx.checker rejects the built model: {obs['checker']}", finding=fid)
     if wf is not None and not all(all(w[1:]) for w in wf):
         _report(ctx, dict(small, wf=[list(w) for w in wf]), f"Graph.tla WF fails on the built model (scoped, outputs, imports): {wf}")
     if obs["ort"] != obs["np"]:
-        fid = "subgraph_name_reuse" if (dv and _cross_graph(dv)) else None
+        fid = "subgraph_name_reuse" if (dv and not case["uniq"] and _cross_graph(dv)) else None
         _report(ctx, dict(small, ort=obs["ort"], numpy=obs["np"]), f"onnxruntime on the built graph gives {obs['ort']}, the NumPy replay of the trace {obs['np']}", finding=fid)
     return mism
 
@@ -957,9 +961,11 @@ def run(ctx: core.Ctx):
         "Builder exhaustive": dict(module="Builder", cfg="Builder_quick.cfg" if q else "Builder_thorough.cfg", env=env, workers=w, timeout=3000),
         "Builder simulate": dict(module="Builder", cfg="Builder_sim.cfg", env=env, workers=8, simulate=f"num={24 if q else 300}", depth=45,
                                  seed=ctx.seed + 1, timeout=3000),
+        "Builder untyped": dict(module="Builder", cfg="Builder_untyped.cfg", env=env, workers=4, timeout=3000),
         "Builder design": dict(module="Builder", cfg="Builder_design.cfg", env=env, workers=2, timeout=3000),
         "Builder vacuity": dict(module="Builder", cfg="Builder_vacuity.cfg", env=env, workers=1, timeout=1500),
         "ModuleTree exhaustive": dict(module="ModuleTree", cfg="ModuleTree_quick.cfg" if q else "ModuleTree_thorough.cfg", workers=2 if q else w, timeout=3000),
+        "ModuleTree orders": dict(module="ModuleTree", cfg="ModuleTree_orders.cfg", workers=4, timeout=3000),
         "ModuleTree simulate": dict(module="ModuleTree", cfg="ModuleTree_sim.cfg", workers=2, simulate=f"num={60 if q else 1500}", depth=24,
                                     seed=ctx.seed + 2, timeout=3000),
         "ModuleTree design": dict(module="ModuleTree", cfg="ModuleTree_design.cfg", workers=1, timeout=1500),
@@ -978,7 +984,7 @@ def run(ctx: core.Ctx):
     # ---------------- part 1: traces
     seen = set()
     traces = []
-    for label in ("Builder exhaustive", "Builder simulate"):
+    for label in ("Builder exhaustive", "Builder untyped", "Builder simulate"):
         for c in _cases(res[label], "CASE"):
             key = json.dumps(c["prog"], sort_keys=True)
             if key not in seen:
@@ -1007,12 +1013,17 @@ def run(ctx: core.Ctx):
     ctx.set("operators_exercised", len(ops_seen) + 3)
     if not q and set(MENU) - ops_seen:
         raise core.MachineryError(f"operators never derived: {sorted(set(MENU) - ops_seen)}")
-    if q and len(traces) > 2600:      # keep every case the implementation model marks as deviating, sample the rest
+    if q and len(traces) > 2600:
+        # keep the cases the implementation model marks as deviating and every case in which a literal meets an untyped
+        # value inside a subgraph (helper nodes created in an inner scope), sample the rest
+        sharp = [c for c in traces if not c["why"] and untyped_literal_in_subgraph(c)]
         dev = [c for c in traces if c["why"]]
-        rest = [c for c in traces if not c["why"]]
-        rng.shuffle(rest)
-        rng.shuffle(dev)
-        traces = dev[:500] + rest[: 2600 - min(500, len(dev))]
+        rest = [c for c in traces if not c["why"] and not untyped_literal_in_subgraph(c)]
+        for l in (sharp, dev, rest):
+            rng.shuffle(l)
+        sharp, dev = sharp[:900], dev[:500]
+        traces = dev + sharp + rest[: max(0, 2600 - len(dev) - len(sharp))]
+    ctx.set("traces_with_untyped_literal_in_subgraph", sum(1 for c in traces if untyped_literal_in_subgraph(c)))
     obs = core.pmap_safe(_trace_worker, traces, timeout=120)
     items = []
     for i, o in enumerate(obs):
@@ -1021,7 +1032,7 @@ def run(ctx: core.Ctx):
     # ---------------- part 2: trees
     trees = []
     seen = set()
-    for label in ("ModuleTree exhaustive", "ModuleTree simulate"):
+    for label in ("ModuleTree exhaustive", "ModuleTree orders", "ModuleTree simulate"):
         for c in _cases(res[label], "TREE"):
             key = json.dumps([c["hist"], c["pol"], c["rootkind"], c["rootname"]], sort_keys=True)
             if key not in seen:
@@ -1035,11 +1046,18 @@ def run(ctx: core.Ctx):
             raise core.MachineryError(f"vacuity: no tree with a child of kind {k}")
     cap = 1500 if q else 40000
     if len(trees) > cap:
-        dev = [c for c in trees if c["why"]]
-        rest = [c for c in trees if not c["why"]]
-        rng.shuffle(dev)
-        rng.shuffle(rest)
-        trees = dev[: cap // 3] + rest[: cap - min(len(dev), cap // 3)]
+        # every tree in which a POPULATED container is appended into another container (names must be re-qualified through
+        # the nested container), a share of those assigned to a Module attribute, the deviating ones, a sample of the rest
+        pba = {id(c): populated_before_attach(c) for c in trees}
+        nested = [c for c in trees if pba[id(c)] == 2]
+        attr = [c for c in trees if pba[id(c)] == 1]
+        dev = [c for c in trees if c["why"] and pba[id(c)] == 0]
+        rest = [c for c in trees if not c["why"] and pba[id(c)] == 0]
+        for l in (nested, attr, dev, rest):
+            rng.shuffle(l)
+        nested, attr, dev = nested[: cap], attr[: cap // 3], dev[: cap // 3]
+        trees = nested + attr + dev + rest[: max(cap // 3, cap - len(nested) - len(attr) - len(dev))]
+    ctx.set("trees_with_populated_container_nested", sum(1 for c in trees if populated_before_attach(c) == 2))
     tobs = core.pmap_safe(replay_tree, trees, timeout=120)
     tsel = set(rng.sample(range(len(trees)), min(len(trees), 250 if q else 3000)))
     for i, o in enumerate(tobs):
@@ -1131,3 +1149,34 @@ def replay(ctx, path):
         bad = bool(dv or dn)
     print("property holds now" if not bad else "property still violated")
     return 1 if bad else 0
+
+
+def populated_before_attach(case):
+    """construction-order feature: a container that already holds children is appended to / assigned into its parent;
+    2 = ... into a container (nested containers), 1 = ... into a Module attribute, 0 = never"""
+    kinds = {1: case["rootkind"]}
+    nkids = {}
+    best = 0
+    for h in case["hist"]:
+        if h[0] == "new":
+            kinds[len(kinds) + 1] = h[1]
+        else:
+            p, c = divmod(h[3], 100)
+            if kinds[c] in ("L", "S") and nkids.get(c, 0) > 0:
+                best = max(best, 2 if h[0] == "append" else 1)
+            nkids[p] = nkids.get(p, 0) + 1
+    return best
+
+
+def untyped_literal_in_subgraph(case):
+    unt = {i + 1 for i, v in enumerate(case["names"]) if not v["tk"] and not v["hid"]}
+
+    def rec(stmts, depth):
+        for s in stmts:
+            if depth > 0 and s["kind"] == "op" and any(a["a"] == "l" for a in s["args"]) and any(a["a"] == "v" and a["v"] in unt for a in s["args"]):
+                return True
+            if any(rec(b["body"], depth + 1) for b in s["subs"]):
+                return True
+        return False
+
+    return rec(case["prog"], 0)
